@@ -8,7 +8,7 @@ from ..algebra import Poly
 from ..degrees import check_degree, declared_degree
 from ..dimscan import scan
 from ..index import AnalysisError
-from ..inertia3d import NAMES, abs_of_det, component_map, expected_integrand, lambda_poly
+from ..inertia3d import NAMES, abs_of_det, one_sided_filter_of_det, component_map, expected_integrand, lambda_poly
 from ..report import Result
 
 EXPLANATION = (
@@ -91,6 +91,12 @@ def run(index, tier="quick", seed=0) -> Result:
         res.bad("DET-SIGN", "Polyhedron._compute_inertia_tensor", f"{fn.file}:{hits[0].lineno}",
                 f"`{ast.unparse(hits[0])[:60]}`: the tetrahedron volumes lose their sign before they are summed - "
                 f"right only for solids star-shaped about the centroid (U-shapes, frames are wrong)")
+    elif one_sided_filter_of_det(fn.node):
+        m = one_sided_filter_of_det(fn.node)[0]
+        res.bad("DET-SIGN", "Polyhedron._compute_inertia_tensor:one-sided-filter", f"{fn.file}:{m.lineno}",
+                f"`{ast.unparse(m)[:70]}` selects the tetrahedra to keep by an ordering test on their *signed* volumes: every negatively "
+                f"oriented tetrahedron is dropped, so the regions that a solid which is not star-shaped about the reference point sweeps twice "
+                f"no longer cancel (a filter on the magnitude keeps both signs)")
     else:
         res.ok("DET-SIGN", "Polyhedron._compute_inertia_tensor")
     # ---------------------------------------------------------------- AREA-1 every face area is a polygon area of the whole face
